@@ -769,3 +769,70 @@ def account_modes(binary, hooks):
                 out.append(("%s: MODE +r refused with 481" % user, any(m.verb == "481" for m in l2)))
             c.close()
     return out
+
+
+# ------------------------------------------------------------------ default user modes govern what new users are
+def default_mode_effects(binary, hooks):
+    """"default user modes": each flag by itself and all together - the welcome burst's 221, the LUSERS counts (invisible,
+    operators), the WALLOPS audience, the operator flag in USERHOST - and the counts after those users left"""
+    out = []
+    H = sut.password_hash(binary, "rootpw")
+    flagsets = [("invisible",), ("oper",), ("local_oper",), ("wallops",), ("registered",),
+                ("invisible", "local_oper", "wallops"), ()]
+    letters = {"invisible": "i", "oper": "o", "local_oper": "O", "registered": "r", "wallops": "w"}
+    for fs in flagsets:
+        dm = {k: (k in fs) for k in letters}
+        label = "+".join(fs) or "none"
+        try:
+            _default_mode_case(binary, hooks, fs, dm, label, letters, H, out)
+        except (wire.Closed, wire.Timeout, OSError) as ex:
+            out.append(("%s: every probe client is answered (%s)" % (label, type(ex).__name__), False))
+    return out
+
+
+def _default_mode_case(binary, hooks, fs, dm, label, letters, H, out):
+    if True:
+        with sut.Server(binary, dict(default_user_modes=dm, operators=[{"name": "root", "password": H}]), hooks=hooks) as srv:
+            a = wire.Client(srv.port, timeout=6.0)
+            b1 = a.register("dma", "dma")
+            b = wire.Client(srv.port, timeout=6.0)
+            b2 = b.register("dmb", "dmb")
+            want = "+" + "".join(letters[k] for k in ("invisible", "oper", "local_oper", "registered", "wallops") if k in fs)
+            got221 = [m.params[1] for m in b2 if m.verb == "221" and len(m.params) > 1]
+            out.append(("%s: 221 is %s" % (label, want), got221 == [want]))
+            n_inv = 2 if "invisible" in fs else 0
+            n_op = 2 if ("oper" in fs or "local_oper" in fs) else 0
+            l251 = [m.params[-1] for m in b2 if m.verb == "251"]
+            l252 = [m.params[1] for m in b2 if m.verb == "252" and len(m.params) > 1]
+            out.append(("%s: 251 counts %d invisible of 2" % (label, n_inv),
+                        l251 == ["There are %d users and %d invisible on 1 servers" % (2 - n_inv, n_inv)]))
+            out.append(("%s: 252 counts %d operators" % (label, n_op), (l252 == [str(n_op)]) if n_op else (l252 in ([], ["0"]))))
+            a.send("USERHOST dmb")
+            uh = " ".join(m.params[-1] for m in a.ping("u") if m.verb == "302")
+            out.append(("%s: USERHOST operator flag" % label, ("dmb*=" in uh) == bool(n_op)))
+            # somebody with operator status sends WALLOPS: exactly the +w users get it
+            c = wire.Client(srv.port, timeout=6.0)
+            c.register("dmc", "dmc")
+            c.send("OPER root rootpw")
+            c.ping("o")
+            c.send("WALLOPS :to the audience")
+            c.ping("w")
+            gotw = any(m.verb == "WALLOPS" for m in b.ping("x"))
+            out.append(("%s: WALLOPS reaches a new user %s" % (label, "" if "wallops" in fs else "not"), gotw == ("wallops" in fs)))
+            # they leave: the counters come back, nobody is left behind, the server still serves
+            a.close()
+            b.send("QUIT :bye")
+            try:
+                b.read_to_eof(3.0)
+            except Exception:
+                pass
+            time.sleep(0.15)
+            c.send("LUSERS")
+            lu = c.ping("l")
+            l251 = [m.params[-1] for m in lu if m.verb == "251"]
+            l252 = [m.params[1] for m in lu if m.verb == "252" and len(m.params) > 1]
+            inv_c = 1 if "invisible" in fs else 0
+            out.append(("%s: after they left 251 counts the one user that stayed" % label,
+                        l251 == ["There are %d users and %d invisible on 1 servers" % (1 - inv_c, inv_c)]))
+            out.append(("%s: after they left 252 counts one operator" % label, l252 == ["1"]))
+            c.close()
